@@ -1,19 +1,20 @@
 import IdspModel.Lemmas.PolarSym
+import IdspModel.Lemmas.PolarTable
 import IdspModel.Props.C01
 /-!
 # C19 — polar round trip: `from_angle`, then `arg` / `abs_sqr` / `log2`
 
-Property theorems only (helpers: `IdspModel/Lemmas/PolarNorm.lean`, `Polar.lean`, `PolarSym.lean`, `Lockin.lean`;
-`cossin` facts from C01, `atan2` facts from C02).
+Property theorems only (helpers: `IdspModel/Lemmas/PolarNorm.lean`, `Polar.lean`, `PolarSym.lean`, `Lockin.lean`,
+the table `PolarTab*.lean` / `PolarTable.lean`; `cossin` facts from C01, `atan2` facts from C02).
 
 Proved for ALL `2^32` phases: nothing panics and the release build agrees; `log2 = -2`;
 `2^31·(1 - 5e-5) ≤ abs_sqr < 2^31`; no unit vector lies on an axis or a diagonal; the wrapped round-trip error
 `arg(from_angle p) - p` is reproduced exactly by quarter turns and negated exactly by conjugation and by the
-in-quadrant mirror, so its maximum over all phases is its maximum over the `2^22` first-octant fields.
-
-NOT proved (explored natively, exhaustively): the numeric value of that maximum, 15038 LSB (`2.2e-5` rad); it
-depends on the accuracy of both approximations against the real trigonometric functions.  The statement is kept as
-`polar_roundtrip_full : Prop`.
+in-quadrant mirror, so its maximum over all phases is its maximum over the `2^22` first-octant fields; and on those
+`2^22` fields the error lies in `[-14911, 15038]` by COMPLETE kernel evaluation (32 generated chunk files
+`Lemmas/PolarTabNNN.lean`, `decide +kernel` on a verified fast evaluator; no `native_decide`).  Hence
+`polar_roundtrip`: the wrapped round-trip error is at most 15038 LSB (`2.2e-5` rad) in magnitude for all `2^32`
+phases (`polar_roundtrip_full_holds`).
 -/
 namespace Idsp
 
@@ -171,8 +172,8 @@ theorem polar_roundtrip_low7 (p p' : Int) (hp : inI 32 p = true) (hp' : inI 32 p
     (h : p / 128 = p' / 128) : polarRoundtrip .checked p = polarRoundtrip .checked p' := by
   rw [roundtrip_eq hp, roundtrip_eq hp']; unfold polarR; rw [cossinVal_of_div h]
 
-/-- the 15038 LSB claim of C19 (wrapped round-trip error at most `2.2e-5` rad for every phase): NOT proved, explored
-    natively over all `2^32` phases -/
+/-- the 15038 LSB claim of C19 (wrapped round-trip error at most `2.2e-5` rad for every phase); proved below
+    (`polar_roundtrip_full_holds`) -/
 def polar_roundtrip_full : Prop :=
   ∀ p, inI 32 p = true → ∀ r, polarRoundtrip .checked p = .ok r →
     -15038 ≤ wrapI 32 (r - p) ∧ wrapI 32 (r - p) ≤ 15038
@@ -202,6 +203,28 @@ theorem polar_roundtrip_full_of_fields
     (h : ∀ f, 0 ≤ f → f < 2 ^ 22 → ∀ r, polarRoundtrip .checked (128 * f) = .ok r →
       -15038 + 127 ≤ r - 128 * f ∧ r - 128 * f ≤ 15038) : polar_roundtrip_full :=
   polar_roundtrip_reduction 15038 (by decide) h
+
+/-- The `2^22`-point statement, by complete kernel evaluation (see `Lemmas/PolarTable.lean`): at every first-octant
+    phase `128·f` the returned angle is within `[-14911, 15038]` LSB of the phase. -/
+theorem polar_roundtrip_fields (f : Int) (h0 : 0 ≤ f) (h1 : f < 2 ^ 22) (r : Int)
+    (h : polarRoundtrip .checked (128 * f) = .ok r) : -15038 + 127 ≤ r - 128 * f ∧ r - 128 * f ≤ 15038 := by
+  have hin : inI 32 (128 * f) = true := lockin_inI32 (by omega) (by omega)
+  rw [roundtrip_eq hin] at h
+  have := polarR_field_bound f h0 h1 r h
+  omega
+
+/-- the full claim holds -/
+theorem polar_roundtrip_full_holds : polar_roundtrip_full :=
+  polar_roundtrip_full_of_fields polar_roundtrip_fields
+
+/-- **C19, round trip**: for EVERY 32-bit phase `p`, converting it to a unit complex number `(c, s)` and back to an
+    angle `r` returns `p` to within 15038 LSB (`2.2e-5` rad), the difference being taken modulo `2^32` (so the wrap
+    at `±π` is handled). -/
+theorem polar_roundtrip (p : Int) (hp : inI 32 p = true) (c s r : Int)
+    (h : fromAngle .checked p = .ok (c, s)) (hr : carg .checked c s = .ok r) :
+    -15038 ≤ wrapI 32 (r - p) ∧ wrapI 32 (r - p) ≤ 15038 := by
+  refine polar_roundtrip_full_holds p hp r ?_
+  unfold polarRoundtrip; rw [h]; exact hr
 
 /-! ### non-vacuity: concrete evaluations (tests, not part of the property) -/
 
